@@ -24,7 +24,7 @@ META = {
         "asyncio semantics as implemented by BaseEventLoop (only clock/selector replaced)",
         "a message counts as taken when the broker's listen() generator passes its yield",
     ],
-    "required_counters": ["scenarios", "saturated_configs"],
+    "required_counters": ["wiring_cases", "scenarios", "saturated_configs"],
     "bounds": {
         "quick": {"A": [1, 2], "P": [0, 1, 2], "n": "A+P+3", "max_body": "2 for A+P>=4", "L1": "(A,P) in {(1,0),(1,1),(2,0)} with <=2 completions"},
         "thorough": {"A": [1, 2, 3, 4], "P": [0, 1, 2, 3, 4], "n": "A+P+3", "max_body": "3 for A+P>=4", "L1": "(A,P) in {(1,0),(1,1),(2,0),(2,1),(1,2),(3,0)}"},
@@ -57,6 +57,10 @@ def scenarios(tier: str) -> List[Dict[str, Any]]:
 
 
 def shards(tier: str, seed: int) -> List[Any]:
+    return _shards(tier, seed) + [[{"wiring": "C04"}]]
+
+
+def _shards(tier: str, seed: int) -> List[Any]:
     return [[s] for s in scenarios(tier)]
 
 
@@ -72,6 +76,12 @@ def _per(sc: Dict[str, Any], res: Any, acc: Acc) -> None:
 
 
 def run_shard(shard: List[Dict[str, Any]]) -> Dict[str, Any]:
+    if shard and shard[0].get("wiring"):
+        from mc.cli_wiring import check_worker_wiring
+
+        acc = Acc()
+        check_worker_wiring("C04", acc)
+        return acc.as_dict()
     return run_scenarios("C04", shard, RecvWorld, per_scenario=_per).as_dict()
 
 
